@@ -35,7 +35,11 @@ def damages(case, hdr_len, row_bytes, point_bytes):
     out = []
     cuts = {"zero-length": 0, "inside-header": max(0, hdr_len // 2) if hdr_len else None,
             "at-sample-boundary": n - point_bytes, "inside-sample": n - max(1, point_bytes // 2) - point_bytes,
-            "one-row-short": n - row_bytes, "one-byte-short": n - 1}
+            "one-row-short": n - row_bytes, "one-byte-short": n - 1,
+            # deep truncations (an interrupted copy), on a sample boundary of the data region
+            "to-three-quarters": hdr_len + ((n - hdr_len) * 3 // 4) // point_bytes * point_bytes,
+            "to-half": hdr_len + ((n - hdr_len) // 2) // point_bytes * point_bytes,
+            "to-quarter": hdr_len + ((n - hdr_len) // 4) // point_bytes * point_bytes}
     for name, k in cuts.items():
         if k is not None and 0 <= k < n:
             out.append(("truncate:" + name, ("cut", k)))
@@ -53,6 +57,9 @@ def run(tier, seed, escalate=False):
     for kit in KITS.values():
         for _ in range(n):
             cases.append(make_case(kit, rng))
+        if hasattr(kit, "systematic"):
+            for cfg in kit.systematic(rng):
+                cases.append(make_case(kit, rng, cfg))
     work = tempfile.mkdtemp(prefix="verif_c19_")
     mism, fails, n_eval, dist = [], [], 0, {}
     try:
